@@ -119,8 +119,14 @@ func (sidEngine) Run(ctx *fw.Ctx, cs any) {
 			"llt-other-time":  pkt.DUIDLLT(1, mac),
 			// a copy of the message's own client identifier: it names another party, not this server
 			"same-as-client-id": pkt.DUIDLL([]byte{2, 0, 0, 0, 0, 1}),
+			// identifiers of unusual sizes: longer than RFC 8415 allows a DUID to be (130 octets), at the
+			// limit, a bare type field, and this server's identifier followed by 200 more bytes
+			"oversize-131": pkt.DUIDLL(append(append([]byte(nil), mac...), make([]byte, 127-len(mac))...)),
+			"size-130":     pkt.DUIDLL(append(append([]byte(nil), mac...), make([]byte, 126-len(mac))...)),
+			"oversize-own": append(append([]byte(nil), own...), make([]byte, 200)...),
+			"type-only":    {0, 3},
 		}
-		names := []string{"none", "matching", "other-kind", "same-kind-other", "longer", "shorter", "opaque", "en", "llt-other-time", "same-as-client-id"}
+		names := []string{"none", "matching", "other-kind", "same-kind-other", "longer", "shorter", "opaque", "en", "llt-other-time", "same-as-client-id", "oversize-131", "size-130", "oversize-own", "type-only"}
 		xid := uint32(0)
 		for typ := 0; typ < 256; typ++ {
 			for _, name := range names {
